@@ -153,7 +153,7 @@ impl ACfg {
         let oracles = r.u32();
         let clauses = r.u32();
         let ro_mode = r.u8();
-        let slot_slack = r.u32();
+        let slot_slack = if r.done() { 0 } else { r.u32() }; // absent in replay files written before the field existed
         ACfg { prop, kt, params, keys, absent, vals, seed, extras, init_vals, oracles, clauses, ro_mode, slot_slack }
     }
     pub fn n_ops(&self) -> usize {
